@@ -72,7 +72,7 @@ def evaluate(case):
         info["expected"] = ["pending"]
     else:
         if case.get("fn_raises"):
-            exp = ("e", ("a0.fn", 0))
+            exp = ("e", ("c", "a0.fn", 0))
         else:
             exp = ("v", (tuple(world._thaw(value_of(1 + i)) for i in range(p)),
                          tuple(("k%d" % j, world._thaw(value_of(1 + p + j))) for j in range(k))))
